@@ -357,3 +357,8 @@ RULES = [
     Rule("C10.X4", rule_X4, floor=12, doc="kind detection table and read-back plumbing"),
     Rule("C10.X5", rule_X5, floor=4, doc="rendering purity"),
 ]
+
+from sa import dims as _dims  # noqa: E402
+
+RULES.append(Rule("C10.AX", _dims.make_rule("C10", "C10.AX"), floor=1,
+                  doc="axis-extent agreement: coordinate components are bounded by the extent of their own axis (E13)"))
